@@ -672,3 +672,87 @@ def C03(ck):
                       'each mutant decoded in a child process (jobs 1..8) under a watchdog; Trace_Total: exit by normal return within the bound. '
                       'non-trivial = distinct (base stream, mutation) other than identity')
     ck.assumptions += ['totality over all byte strings is explored, not decided', 'time bound per mutant: 45 s (60 s for 5 MiB BWT blocks) while valid decodes take milliseconds; a hang is re-run alone before it counts']
+
+
+# ------------------------------------------------------------------------------------------------
+LEVEL['C13'] = 'exploration'
+
+
+def _seq_cfg(impl, n, deltas, outcomes, invs):
+    mc = '---- MODULE MC_S ----\nEXTENDS KzSequence\nMCDeltas == {%s}\nMCOutcomes == {%s}\n====\n' % (deltas, outcomes)
+    c = ('CONSTANTS\n N = %d\n L0 = 8\n Pad = 2\n Deltas <- MCDeltas\n Outcomes <- MCOutcomes\n Impl = "%s"\nSPECIFICATION Spec\n'
+         'INVARIANTS %s\nCHECK_DEADLOCK FALSE\n') % (n, impl, invs)
+    return mc, c
+
+
+def sequence_models(ck, T):
+    """KzSequence: the contract of a stage is sufficient (RoundTrip) and necessary (dirty decline corrupts)."""
+    from concurrent.futures import ThreadPoolExecutor
+    runs = [('fixed', 3, '0-2, 0, 1', '"apply", "decline"', 'FlagsRoundTrip FlagsMeaning RoundTrip', True),
+            ('fixed', 4, '0-2, 0, 1', '"apply", "decline"', 'FlagsRoundTrip FlagsMeaning RoundTrip', True),
+            ('fixed', 5, '0, 1', '"apply", "decline"', 'FlagsRoundTrip FlagsMeaning RoundTrip', True),
+            ('fixed', 6 if not T else 8, '0, 1', '"apply", "decline"', 'FlagsRoundTrip FlagsMeaning RoundTrip', True),
+            ('asis', 4, '0, 1', '"apply", "decline"', 'RoundTrip', False),
+            ('fixed', 3, '0', '"apply", "decline", "dirty"', 'NoCorruption', False)]
+
+    def one(r):
+        mc, c = _seq_cfg(*r[:5])
+        return kzv.tlc('MC_S', c, workers=4, timeout=3000, extra_files={'MC_S.tla': mc}, heap='3g')
+    with ThreadPoolExecutor(max_workers=6) as ex:
+        results = list(ex.map(one, runs))
+    for r, res in zip(runs, results):
+        if r[5]:
+            ck.add_tlc(res, 'KzSequence %s N=%d deltas {%s}' % (r[0], r[1], r[2]))
+            if not res.ok:
+                raise kzv.ToolFailure('KzSequence fails its own check: ' + res.out[-2000:])
+        else:
+            ck.cov.setdefault('selftests', []).append({'cfg': r[:4], 'violated': res.violated})
+            if not res.violated:
+                raise kzv.ToolFailure('vacuity self-test of KzSequence did not fail: %s' % (r[:4],))
+
+
+def C13(ck):
+    T = thorough(ck)
+    sequence_models(ck, T)
+    kzh = kzv.build_harness()
+    base = os.path.join(kzv.BUILD, 'tlc', 'xform_%d' % os.getpid())
+    cmd = [kzh, 'xform', '-n', str(6000 if T else 700), '-seed', str(ck.seed), '-out', base + '.ndjson', '-sum', base + '.sum', '-par', str(kzv.NCPU)]
+    if T:
+        cmd.append('-thorough')
+    rc, so, se, dt = kzv.run(cmd, timeout=4 * 3600)
+    if rc != 0:
+        raise kzv.ToolFailure('xform driver failed: ' + se[-1500:])
+    summ = json.load(open(base + '.sum'))
+    res = kzv.validate_trace('Trace_Transform', base + '.ndjson', timeout=1800)
+    if res.error or res.violated:
+        raise kzv.ToolFailure('Trace_Transform failed: %s %s\n%s' % (res.error, res.violated, res.out[-1500:]))
+    tr = kzv.read_ndjson(base + '.ndjson')
+    ck.cov['states'] += res.distinct
+    ck.cov['transitions'] += res.generated
+    seen = set()
+    for e, pred in _violations_from(res.out, tr):
+        key = (pred, e['t'], e['shape'])
+        if key in seen:
+            continue
+        seen.add(key)
+        ck.violation({'kind': 'stage', 'pred': pred, 't': e['t'], 'shape': e['shape'], 'size': e['size'], 'hint': e['hint'],
+                      'detail': (e.get('fwdPanic') or e.get('invPanic') or e.get('inv') or '')[:160]},
+                     {'cmd': 'xform', 'case': json.loads(e['desc']), 'event': {k: v for k, v in e.items() if k != 'desc'}}, name='stage')
+    ck.cov['evaluations'] += summ['runs']
+    ck.cov['distinct_nontrivial'] += summ['distinct']
+    ck.cov['traces_validated_against_impl'] += summ['runs']
+    ck.cov['outcomes'] = summ['byMode']
+    ck.cov['driver_wall_s'] = round(dt, 1)
+    ck.notes += summ.get('notes', [])
+    for s in summ['samples'][:3]:
+        ck.sample({'stage_case': s})
+    ck.cov['rule'] = ('KzSequence.tla model-checked: for every vector of stage outcomes and length changes the inverse sequence restores the block in '
+                      'the decoder buffers and the skip flags survive the mode byte, PROVIDED each stage honours the per-stage contract; the as-is '
+                      'sequence and a dirty decline are shown to break it. Then every transform is run against that contract on real data: 19 transforms '
+                      '(single instances built as the factory builds them, and chains through transform.New) x 19 data shapes x sizes 1..1 MiB '
+                      '(4 MiB regime in thorough) x data type hints harvested from earlier stages x entropy context; forward into a buffer of exactly '
+                      'MaxEncodedLen, inverse with a fresh instance into a buffer of the decompressor size; Trace_Transform.tla judges each event '
+                      '(no fault, clean decline, output <= MaxEncodedLen, inverse restores). non-trivial = distinct (transform, shape, size, hint, entropy) with size > 16')
+    ck.assumptions += ['exploration: inverse-pair correctness for all inputs is not decided']
+    for f in (base + '.ndjson', base + '.sum'):
+        os.remove(f)
